@@ -425,6 +425,7 @@ type replay struct {
 type harness struct {
 	c                   *vh.Ctx
 	dcases, ecases, ocs []string
+	lcases              []string
 	seenKeys            map[key32]string
 }
 
@@ -833,8 +834,10 @@ func main() {
 	sb.WriteString("Definition dcases : list dcase := \n" + vh.CoqList(h.dcases) + ".\n")
 	sb.WriteString("Definition ecases : list ecase := \n" + vh.CoqList(h.ecases) + ".\n")
 	sb.WriteString("Definition ocases : list ocase := \n" + vh.CoqList(h.ocs) + ".\n")
+	sb.WriteString("Definition lcases : list lcase := \n" + vh.CoqList(h.lcases) + ".\n")
 	sb.WriteString("Definition M_derive := Eval vm_compute in derive_mismatches dcases.\nPrint M_derive.\n")
 	sb.WriteString("Definition M_ecdh := Eval vm_compute in ecdh_mismatches ecases.\nPrint M_ecdh.\n")
 	sb.WriteString("Definition M_open := Eval vm_compute in open_mismatches gen_c03_sites ocases.\nPrint M_open.\n")
+	sb.WriteString("Definition M_live := Eval vm_compute in live_mismatches lcases.\nPrint M_live.\n")
 	c.WriteCasesV("cases.v", sb.String())
 }
